@@ -38,6 +38,8 @@ const prop = "C20"
 type Case struct {
 	History hist.History `json:"history"`
 	Bin     bool         `json:"bin,omitempty"`
+	// Branches: names of the base / feature branch and how pint learns the base (nil = main / feature / --base-branch)
+	Branches *hist.Branches `json:"branches,omitempty"`
 }
 
 var errHarness = errors.New("harness")
@@ -399,7 +401,10 @@ func observeBinary(repo *hist.Repo) ([]Warn, error) {
 	if bin == "" {
 		return nil, fmt.Errorf("%w: VERIF_PINT_BIN not set", errHarness)
 	}
-	reports, exit, _, err := repo.RunCI(bin, "")
+	reports, exit, stderr, err := repo.RunCI(bin, "")
+	if err != nil && strings.Contains(stderr, "Running from base branch, skipping checks") {
+		return nil, fmt.Errorf("`pint ci` skipped every check claiming to run from the base branch: checked out branch is %q, base branch given as %q (%s)", repo.Names.Head, repo.Names.BaseRef(), repo.Names.BaseVia)
+	}
 	if err != nil {
 		return nil, fmt.Errorf("`pint ci` failed on a valid history (exit %d): %v", exit, err)
 	}
@@ -477,7 +482,11 @@ func judge(h hist.History, got []Warn) (expectation, string, error) {
 }
 
 func run(c Case, cfg config.Config) (ex expectation, class string, err error) {
-	repo, err := hist.Build(c.History)
+	nm := hist.DefaultBranches
+	if c.Branches != nil {
+		nm = *c.Branches
+	}
+	repo, err := hist.BuildNamed(c.History, nm)
 	if err != nil {
 		return ex, "", fmt.Errorf("%w: %v", errHarness, err)
 	}
@@ -700,6 +709,8 @@ func TestPropRemoval(t *testing.T) {
 	defer func() { rec.Count("excluded_by_construction:"+classNameMatcher, excluded) }()
 	rapid.Check(t, func(rt *rapid.T) {
 		c := Case{History: hist.Gen(rt, p)}
+		nm := hist.GenBranches(rt)
+		c.Branches = &nm
 		c.Bin = rapid.IntRange(0, binOneIn-1).Draw(rt, "bin") == 0
 		// what happens to a removed rule that pint cannot fully parse is decided in
 		// cmd/pint (checkRules), which only the real binary runs: always take it there
